@@ -148,6 +148,14 @@ func oracleC02(c *oracleCtx) {
 	if c.tier == "replay" {
 		return
 	}
+	// ---- identifiers that other builders of this process registered as token type names (see processPrelude) ----
+	for _, t := range []string{
+		"function pow(b, e) { return b }\nlet PI = 3\nlet unless = pow(PI, mod)\n",
+		"pow = PI * mod + unless.of\n", "x = {pow: 1, PI: 2}.pow + typeof\n", "if (mod) { unless(PI) } else pow++\n",
+	} {
+		c02CheckText(c, t, "", "prelude-words")
+		c.count(t)
+	}
 	// ---- long and deep programs: what was parsed before, and how much, does not matter ----
 	units := []string{"if (a) { b() }\n", "while (c) { d-- }\n", "{ e = 1 }\n", "for (;;) { f() }\n", "function g() { return 1 }\n", "x = [1, 2]\n",
 		"if (a) b(); else { c() }\n", "y = {k: (1 + 2) * 3}\n", "z = function() { { } }\n"}
